@@ -67,14 +67,14 @@ CbSnapS(i) == suspSnap' = (IF suspExc' # suspExc THEN snap[i] ELSE suspSnap) /\ 
 TEvSet == /\ IsEv("EvSet") /\ ~event
           /\ \/ \E i \in Br : \/ (CbWrite(i) /\ CbSnapW(i) /\ H4 /\ H5) \/ (CbDecide(i) /\ H3 /\ H4 /\ H5)
                               \/ (CbScan(i) /\ CbSnapS(i) /\ H4 /\ H5)
-             \/ (TimerRefreshed(FALSE) /\ H3 /\ H4 /\ UNCHANGED <<tphAtSusp, stale>>)      \* failed refresh checkpoint (fixed code)
+             \/ (TimerRefreshed(FALSE) /\ H3 /\ H4 /\ UNCHANGED <<tphAtSusp, stale, badSusp>>)      \* failed refresh checkpoint (fixed code)
           /\ event' /\ suspExc' = Ev.susp
           /\ Consume
 
 \* reset_to_pending() of a due branch (code as it is: right after it was popped from the timer heap) ...
 TResubmit == IsEv("Resubmit") /\ TimerPopStep(Ev.i) /\ Consume
 \* ... then the timer thread enqueues the empty refresh checkpoint
-TRefresh == IsEv("Refresh") /\ TimerPut /\ H3 /\ H4 /\ UNCHANGED <<tphAtSusp, stale>> /\ Consume
+TRefresh == IsEv("Refresh") /\ TimerPut /\ H3 /\ H4 /\ UNCHANGED <<tphAtSusp, stale, badSusp>> /\ Consume
 
 TBuild == /\ IsEv("Build") /\ MainBuild /\ H3 /\ H4 /\ H5
           /\ Len(items') = Len(Ev.items) /\ (\A k \in 1..Len(Ev.items) : items'[k] = Ev.items[k]) /\ reason' = Ev.reason
@@ -92,8 +92,8 @@ SilentStep ==
   /\ l <= Len(Tr)
   /\ \/ ((MainSubmit \/ MainWake \/ MainCancel \/ MainParentMark) /\ H3 /\ H4 /\ H5)
      \* the refresh checkpoint of the timer thread returns (a failing one sets the completion event: observed as EvSet)
-     \/ (TimerRefreshed(TRUE) /\ H3 /\ H4 /\ UNCHANGED <<tphAtSusp, stale>>)
-     \/ (TimerRefreshed(FALSE) /\ H3 /\ H4 /\ UNCHANGED <<tphAtSusp, stale>> /\ event' = event)
+     \/ (TimerRefreshed(TRUE) /\ H3 /\ H4 /\ UNCHANGED <<tphAtSusp, stale, badSusp>>)
+     \/ (TimerRefreshed(FALSE) /\ H3 /\ H4 /\ UNCHANGED <<tphAtSusp, stale, badSusp>> /\ event' = event)
      \/ \E i \in Br :
           \* body steps without an observable effect: the orphan check that passes, the function, atom selection
           \/ (wph[i] = "run" /\ BodyStep(i) /\ H3 /\ H5 /\ fout'[i] = fout[i] /\ (i \in chk' \/ i \notin chk)
